@@ -271,7 +271,7 @@ static const char *eval_case(case_t *c, res_t *r)
 		n_dumps++;
 		if (VX_TRY) { hex_dump_to_file(f, arr, (size_t)c->len); VX_END; }
 		else { VX_END; fault = vx_fault_kind; n_faults++; }
-		if (fault) { snprintf(r->detail, sizeof(r->detail), "hex_dump_to_file: %s", vx_fault_msg); return fault_name(fault); }
+		if (fault) { snprintf(r->detail, sizeof(r->detail), "hex_dump_to_file: %.120s", vx_fault_msg); return fault_name(fault); }
 		fclose(f);
 		if (sz > MAXT || strlen(buf) != sz) {
 			snprintf(r->detail, sizeof(r->detail), "dump is %zu bytes long (NUL at %zu)", sz, strlen(buf));
@@ -285,7 +285,7 @@ static const char *eval_case(case_t *c, res_t *r)
 		r->m = c->len; r->have_exp = 1;
 		run_parse(place_text(c->text, c->n, 0), c->n, c->mode, &r->o);
 		k = judge(&r->o, r->exp, r->m);
-		if (k && !strncmp(k, "fault", 5)) snprintf(r->detail, sizeof(r->detail), "hex_get_byte: %s", vx_fault_msg);
+		if (k && !strncmp(k, "fault", 5)) snprintf(r->detail, sizeof(r->detail), "hex_get_byte: %.120s", vx_fault_msg);
 		return k;
 	}
 	if (c->part == 'b') {
@@ -295,12 +295,12 @@ static const char *eval_case(case_t *c, res_t *r)
 		r->have_exp = 1;
 		run_parse(place_text(c->text, c->n, c->place), c->n, c->mode, &r->o);
 		k = judge(&r->o, r->exp, r->m);
-		if (k && !strncmp(k, "fault", 5)) snprintf(r->detail, sizeof(r->detail), "hex_get_byte: %s", vx_fault_msg);
+		if (k && !strncmp(k, "fault", 5)) snprintf(r->detail, sizeof(r->detail), "hex_get_byte: %.120s", vx_fault_msg);
 		return k;
 	}
 	run_parse(place_text(c->text, c->n, c->place), c->n, c->mode, &r->o);
 	k = judge(&r->o, NULL, 0);
-	if (k && !strncmp(k, "fault", 5)) snprintf(r->detail, sizeof(r->detail), "hex_get_byte: %s", vx_fault_msg);
+	if (k && !strncmp(k, "fault", 5)) snprintf(r->detail, sizeof(r->detail), "hex_get_byte: %.120s", vx_fault_msg);
 	return k;
 }
 
@@ -345,9 +345,12 @@ static void minimise(case_t *c, const char *kind)
 			}
 		/* canonical characters: lower case, digit 0, blank */
 		for (int i = 0; i < c->n; i++) {
-			int ch = c->text[i], alt[3], na = 0;
+			int ch = c->text[i], alt[5], na = 0;
 			if (is_hex(ch) && ch != '0') alt[na++] = '0';
 			if (ch >= 'A' && ch <= 'F') alt[na++] = ch | 0x20;
+			if (ch > '1' && ch <= '9') alt[na++] = '1';
+			if (ch > 'a' && ch <= 'f') alt[na++] = 'a';
+			if (ch > 'A' && ch <= 'F') alt[na++] = 'A';
 			if (is_ws(ch) && ch != ' ') alt[na++] = ' ';
 			for (int a = 0; a < na; a++) {
 				t = *c; t.text[i] = (uint8_t)alt[a];
@@ -569,7 +572,7 @@ typedef struct { uint8_t len; char s[39]; } line_t;
 static line_t *lines; static int nlines_pool, cap_lines;
 
 static const char *b_ws[3] = { "", " ", "\t" };
-static const char *b_trail[3] = { "", " ", "\t\r" };
+static const char *b_trail[2] = { "", " \t\r" };
 static const char *b_addr[3] = { "", "10:", "0fA0:" };
 static const char *b_val[3] = { "0a", "F9", "bC" };
 static int b_nws, b_ntrail, b_naddr, b_nval;
@@ -584,7 +587,7 @@ static void add_line(const char *body, const char *trail)
 }
 static void gen_pairs(char *body, int blen, int npairs)
 {
-	for (int t = 0; t < 3; t++) { if (b_ntrail == 2 && t == 1) continue; body[blen] = 0; add_line(body, b_trail[t]); }
+	for (int t = 0; t < b_ntrail; t++) { body[blen] = 0; add_line(body, b_trail[t]); }
 	if (npairs == 3) return;
 	for (int w = 0; w < b_nws; w++)
 		for (int p = 0; p < 2; p++)
@@ -598,7 +601,7 @@ static void gen_lines(void)
 	char body[64];
 	b_nws = b_naddr = 3;
 	b_nval = vx_thorough() ? 3 : 2;
-	b_ntrail = vx_thorough() ? 2 : 3;	/* thorough: "" and "\t\r" only, to pay for the third pair value */
+	b_ntrail = 2;
 	for (int a = 0; a < b_naddr; a++) { int n = sprintf(body, "%s", b_addr[a]); gen_pairs(body, n, 0); }
 }
 
